@@ -50,6 +50,11 @@ def has_var(t):
     return has_var(t['l']) or has_var(t['r'])
 
 
+def computed_exponent(t):
+    """An exponent that is neither a literal nor a bare variable / parameter, and depends on one."""
+    return t['k'] not in ('const', 'var', 'par') and has_var(t)
+
+
 MARGIN = Fr(1, 1000)
 BIG = 10 ** 6
 
@@ -83,6 +88,8 @@ def eval_exact(t, env, pars=None):
             raise Irregular('division by zero')
         return l / r
     if op == '**':
+        if computed_exponent(t['r']) and l < MARGIN:
+            raise Irregular('computed exponent with non-positive base')
         if r.denominator != 1:
             raise TypeError('fractional power')
         e = int(r)
@@ -143,6 +150,10 @@ class MPEval:
                 raise Irregular('small denominator')
             return self.note(l / r)
         if op == '**':
+            if computed_exponent(t['r']) and l < 1e-3:
+                # an exponent that is itself computed in floating point is an integer only up to rounding:
+                # a negative base is then outside the domain of the float power (NaN), whatever the exact value
+                raise Irregular('computed exponent with non-positive base')
             if self.deriv and has_var(t['r']) and l < 1e-3:
                 # variable exponent: x**y = exp(y ln x) is differentiable only for x > 0
                 raise Irregular('variable exponent with non-positive base')
@@ -276,6 +287,8 @@ def value_and_error(t, env, pars=None, deriv=False):
             v = l / r
             err = el / abs(r) + abs(l) * er / (r * r)
         else:
+            if computed_exponent(u['r']) and l < 1e-3:
+                raise Irregular('computed exponent with non-positive base')
             if r == int(r):
                 n = int(r)
                 if n < 0 and abs(l) < 1e-3:
